@@ -180,7 +180,8 @@ class Scheduler:
         if isinstance(on, SEvent):
             return on._flag
         if isinstance(on, _Sleep):
-            return True
+            clock = getattr(self, "clock", None)
+            return True if clock is None else clock.peek() >= on.until
         for probe in self.on_block_probe:
             r = probe(on)
             if r is not None:
